@@ -13,7 +13,7 @@ def WF (sl sh : Nat) : List ABlk → Prop
       ((b.parent = sl ∧ b.height = sh + 1) ∨ (∃ p ∈ older, p.label = b.parent ∧ b.height = p.height + 1))
 
 /-- the invariant tying every table to the specification -/
-structure Inv (s : ASt) : Prop where
+structure CInv (s : ASt) : Prop where
   wf : WF s.sl s.sh s.blocks
   J1 : ∀ b ∈ s.blocks, ∀ k h v, specWriter s.blocks b.label k = some (h, v) → b.tbl k = some ⟨v, h⟩
   J2 : ∀ b ∈ s.blocks, ∀ k, specWriter s.blocks b.label k = none →
